@@ -45,14 +45,14 @@ def checks_for(path, func):
              (r'^OP_(IF|IF_ELSE|TRY_EXCEPT|LOOP|DEF|CALL|EVAL|RETURN)$', ['C06', 'C01', 'C07', 'C09']),
              (r'run_auth|run_script|run_tape', ['C01', 'C09', 'C07', 'C06']),
              (r'NOP|soft_fork|add_opcode', ['C20', 'C06']),
-             (r'int_to_bytes|bytes_to_int|float|bytes_to_bool|uint', ['C10', 'C06']),
+             (r'int_to_bytes|bytes_to_int|float|bytes_to_bool|uint', ['C10', 'C11', 'C06']),
              (r'plugin|contract|interface', ['C19', 'C09', 'C06']),
              (r'OP_CHECK_TEMPLATE|OP_INVOKE|OP_CHECK_TRANSFER', ['C06', 'C09']),
              (r'CACHE|OP_POP|OP_GET_VALUE|OP_MSG', ['C06', 'C08', 'C07'])]
     for rx, cs in table:
         if re.search(rx, f):
             return cs
-    return ['C06', 'C07']
+    return ['C06', 'C07', 'C09']
 
 
 class Sites(ast.NodeVisitor):
